@@ -127,7 +127,7 @@ func (o *orbitDBAccessController) CanAppend(entry logac.LogEntry, p identityprov
 
 	for _, k := range access {
 		if k == entry.GetIdentity().ID || k == "*" {
-			if err := accesscontroller.VerifyEntryAuthor(entry); err != nil {
+			if err := accesscontroller.VerifyEntryAuthor(entry, p); err != nil {
 				return err
 			}
 
